@@ -15,4 +15,5 @@ INVARIANT Inv_RoutingHeader
 INVARIANT Inv_Rest
 INVARIANT Inv_CallsExposed
 INVARIANT Inv_OwnWins
+INVARIANT Inv_OwnTransport
 PROPERTY Live
